@@ -150,7 +150,7 @@ type unredactableEvent interface {
 
 func redactEventJSON[T unredactableEvent](eventJSON []byte, unredactableEvent T, eventTypeToKeepContentFields map[string][]string) ([]byte, error) {
 	// Unmarshalling into a struct will discard any extra fields from the event.
-	if err := json.Unmarshal(eventJSON, &unredactableEvent); err != nil {
+	if err := json.Unmarshal(dropCaseVariantKeys(eventJSON), &unredactableEvent); err != nil {
 		return nil, err
 	}
 	newContent := map[string]interface{}{}
